@@ -175,13 +175,31 @@ func WorkerMain(id, tier string, shard, nshards, start int, journal string, dead
 	}
 	d := &wireDone{Counters: map[string]int64{}, Last: -1, MinBound: 1 << 30}
 	outcomes := map[uint64]struct{}{}
+	sent := map[uint64]struct{}{}
+	lastFlush := time.Now()
+	flush := func(final bool) {
+		for h := range outcomes {
+			if _, ok := sent[h]; !ok {
+				sent[h] = struct{}{}
+				d.Outcomes = append(d.Outcomes, h)
+			}
+		}
+		t := "prog"
+		if final {
+			t = "done"
+		}
+		emit(wireMsg{T: t, Done: d})
+		nd := &wireDone{Counters: map[string]int64{}, Last: d.Last, MinBound: 1 << 30, TimedOut: d.TimedOut}
+		d = nd
+		lastFlush = time.Now()
+	}
 	var jb [16]byte
 	first := start
 	if first%nshards != shard {
 		first += (shard - first%nshards + nshards) % nshards
 	}
 	for i := first; i < n; i += nshards {
-		if d.Cases&15 == 0 && time.Now().After(deadline) {
+		if time.Now().After(deadline) {
 			d.TimedOut = true
 			break
 		}
@@ -219,11 +237,11 @@ func WorkerMain(id, tier string, shard, nshards, start int, journal string, dead
 			emit(wireMsg{T: "viol", Idx: i, Viol: &r.Viol[k]})
 		}
 		d.Last = i
+		if d.Cases >= 64 || time.Since(lastFlush) > 500*time.Millisecond {
+			flush(false)
+		}
 	}
-	for h := range outcomes {
-		d.Outcomes = append(d.Outcomes, h)
-	}
-	emit(wireMsg{T: "done", Done: d})
+	flush(true)
 }
 
 // ---------------------------------------------------------------------------------------------
@@ -412,8 +430,10 @@ func ParentMain(o Options) int {
 						viols = append(viols, violRec{Idx: m.Idx, V: *m.Viol})
 					case "abort":
 						aborted = m.Idx
-					case "done":
-						gotDone = true
+					case "done", "prog":
+						if m.T == "done" {
+							gotDone = true
+						}
 						d := m.Done
 						total.Cases += d.Cases
 						total.Execs += d.Execs
@@ -482,8 +502,7 @@ func ParentMain(o Options) int {
 					last = aborted
 				}
 				mu.Lock()
-				// the dead worker's counters for the cases before `last` are lost; count the case itself
-				total.Cases++
+				total.Cases++ // the case that killed the worker (earlier cases were reported by progress messages)
 				mu.Unlock()
 				restarts++
 				if restarts > 2000 {
